@@ -17,7 +17,9 @@ RULE = ('(i) bounded-exhaustive token soups; (ii) every macro and environment na
         'strict_latex_spaces x keep_comments x keep_braced_groups x fill_text (pairwise-covering '
         'in quick, all 240 in thorough). Oracle under the read-count monitor: latex_to_text returns '
         'str, raises nothing, terminates; (iv) thorough: atheris campaigns with the same oracle in '
-        'the target. Non-trivial = every (ii)/(iii) case and soups with >= 1 '
+        'the target. The name sweep varies what arguments contain (digits, punctuation, non-ASCII, accent '
+        'macros, blanks, nested groups, scripts, ligatures). '
+        'Non-trivial = every (ii)/(iii) case and soups with >= 1 '
         'control sequence; distinct by (source, option set).')
 ASSUMPTIONS = ['default tolerant parsing; default latex2text context database']
 NSHARDS = 16
